@@ -52,6 +52,43 @@ MODELS = {
            ["g1", "g2", "g3", "g4", "g5"], ["Running", "Releasing", "Bound"], 3, 8),
 }
 
+def _op(op, p, st="None", grp=()):
+    return {"op": op, "p": p, "st": st, "grp": list(grp)}
+
+
+# Directed scenarios (run in every tier): the reproducers of the defects this stage found, so that a
+# regression is caught independently of the model bound and of the random seed. "Place" lets the REAL
+# fit functions decide (st "A" = allocate action, "B" = solver; grp = order in which fitting GPUs are
+# offered, "*" = a whole GPU; new groups are named f1, f2, ...).
+DIRECTED = [
+    # move of an evicted fraction pod to another GPU group of the node, rolled back (fixed by 98c33d5)
+    dict(id="d-move-rollback", n=2, gpumem=100, cpu=4000, maxpods=4, kinds=[FRAC(1000, 50), FRAC(1000, 50)], ops=[
+        _op("SnapAdd", 1, "Running", ["g1"]), _op("SnapAdd", 2, "Running", ["g2"]), _op("Evict", 1, "Releasing", ["g1"]),
+        _op("Consolidate", 1, "Pipelined", ["g2"]), _op("UnpipelineMoved", 1, "Releasing", ["g1"]), _op("Unevict", 1, "Running", ["g1"])]),
+    # Idle-GPU drift next to nominated GPU pods (known finding): last running sharer evicted next to a nominated whole-GPU pod
+    dict(id="d-evict-next-to-nominated-whole", n=2, gpumem=100, cpu=3000, maxpods=4, kinds=[FRAC(1000, 50), FRAC(2000, 50), WHOLE(1000, 1)], ops=[
+        _op("SnapAdd", 1, "Running", ["g1"]), _op("SnapAdd", 2, "Releasing", ["g1"]), _op("Place", 3, "A", []),
+        _op("Evict", 1, "Releasing", ["g1"])]),
+    # ... and ConvertAllAllocatedToPipelined with a nominated co-sharer on the fresh group
+    dict(id="d-convert-with-nominated-cosharer", n=2, gpumem=100, cpu=3000, maxpods=4, kinds=[FRAC(1000, 50), FRAC(2000, 50), WHOLE(1000, 1)], ops=[
+        _op("SnapAdd", 3, "Releasing"), _op("Place", 1, "A", ["*"]), _op("Place", 2, "A", ["f1"]),
+        _op("Unallocate", 1), _op("ConvPipeline", 1, "Pipelined", ["f1"])]),
+    # allocation onto a group that only holds nominated sharers (fixed by 8808e31): the third pod must be nominated
+    dict(id="d-allocate-on-nominated-only-group", n=3, gpumem=100, cpu=8000, maxpods=8,
+         kinds=[WHOLE(500, 1), WHOLE(500, 1), FRAC(500, 50), FRAC(500, 50), FRAC(500, 50)], ops=[
+        _op("SnapAdd", 1, "Running"), _op("SnapAdd", 2, "Releasing"), _op("Place", 3, "A", ["*"]), _op("Place", 4, "A", ["*"]),
+        _op("Unallocate", 3), _op("ConvPipeline", 3, "Pipelined", ["f1"]), _op("Place", 5, "A", ["f1", "f2", "*"])]),
+    # ... with a 2-device pod: one nominated-only group + one fresh group would take two devices while one is idle
+    dict(id="d-multidevice-on-nominated-only-group", n=4, gpumem=100, cpu=8000, maxpods=8,
+         kinds=[WHOLE(500, 1), WHOLE(500, 1), WHOLE(500, 1), FRAC(500, 50), FRAC(500, 50), FRAC(500, 50, 2)], ops=[
+        _op("SnapAdd", 1, "Running"), _op("SnapAdd", 2, "Releasing"), _op("SnapAdd", 3, "Releasing"),
+        _op("Place", 4, "A", ["*"]), _op("Place", 5, "A", ["*"]),
+        _op("Unallocate", 4), _op("ConvPipeline", 4, "Pipelined", ["f1"]), _op("Place", 6, "A", ["f1", "*"])]),
+    # fresh group for immediate allocation only on an idle device (fixed by af5bd95): whole GPU offered first
+    dict(id="d-fresh-group-on-releasing-device", n=2, gpumem=100, cpu=4000, maxpods=4, kinds=[FRAC(1000, 50), FRAC(1000, 50), FRAC(1000, 30)], ops=[
+        _op("SnapAdd", 1, "Running", ["g1"]), _op("SnapAdd", 2, "Releasing", ["g2"]), _op("Place", 3, "A", ["*", "g1"])]),
+]
+
 DUMMY = dict(NGpu=1, GpuMem=100, NodeCpu=1, MaxPods=1, Kind="<<>>", GroupSeq="<<>>", SnapSt="{}", MaxSnap=0, MaxOps=0)
 
 
@@ -301,7 +338,16 @@ def run_stage(ctx, prefixes):
         ctx.stage("real-replay-" + name, **info)
         account(ctx, trace)
         validate_chunked(ctx, trace, name, prefixes)
-    nrandom, steps = (1500, 40) if ctx.quick else (8000, 60)
+    scen = os.path.join(ctx.scratch, "na-directed.ndjson")
+    with open(scen, "w") as f:
+        for sc in DIRECTED:
+            f.write(json.dumps(dict(sc, **{"class": "directed"})) + "\n")
+    dtrace = os.path.join(ctx.scratch, "na-trace-directed.ndjson")
+    p = vlib.run_harness(binary, ["-in", scen, "-out", dtrace])
+    ctx.stage("real-run-directed", **json.loads(p.stdout.strip().splitlines()[-1]))
+    account(ctx, dtrace)
+    validate(ctx, dtrace, "directed", prefixes)
+    nrandom, steps = (1500, 40) if ctx.quick else (20000, 60)
     rnd = os.path.join(ctx.scratch, "na-trace-rnd.ndjson")
     p = vlib.run_harness(binary, ["-random", str(nrandom), "-steps", str(steps), "-seed", str(ctx.seed), "-out", rnd])
     ctx.stage("real-run-random", **json.loads(p.stdout.strip().splitlines()[-1]))
